@@ -21,6 +21,8 @@ for sid in sorted(res):
     sym = own.get('first', '').split('symptom=')[-1]
     tier = meta.get('caught_tier', 'quick')
     caught = ('%s %s: `%s`' % (r['property'], tier, sym[:70])) if r.get('caught') else '**missed**'
+    if meta.get('obsolete'):
+        caught = 'obsolete: ' + meta['obsolete']
     if meta.get('strengthened'):
         caught += ' (after: %s)' % meta['strengthened']
     print('| %s | %s | `%s` | %s | %s | %s | %s |' % (sid, r.get('property'), site, meta['needs_to_manifest'].replace('|', '/'),
